@@ -185,6 +185,9 @@ pub struct StdBroker {
     pub get_bodies: VecDeque<Vec<u8>>,
     pub client_closed: bool,
     pub server_closed: bool,
+    /// after its own Connection.Close the server still answers a (crossing) Connection.Close of
+    /// the client with CloseOk, as RabbitMQ does in its closing state
+    pub answer_crossing_close: bool,
     /// frames the broker could not make sense of (envelope parser vs amq-protocol disagreement)
     pub parse_disagreements: Vec<String>,
     /// do not answer these (class, method) requests at all
@@ -239,6 +242,7 @@ impl StdBroker {
             get_bodies: VecDeque::new(),
             client_closed: false,
             server_closed: false,
+            answer_crossing_close: false,
             parse_disagreements: Vec::new(),
             mute: Vec::new(),
             replies: Vec::new(),
@@ -552,7 +556,14 @@ impl StdBroker {
         }
         self.frames.push(env.clone());
         if self.server_closed {
-            return; // after our Close we only expect CloseOk; ignore everything
+            // after our Close we only expect CloseOk; ignore everything (but see answer_crossing_close)
+            if self.answer_crossing_close && !self.client_closed {
+                if let Some(AMQPFrame::Method(0, AMQPClass::Connection(connection::AMQPMethod::Close(_)))) = parsed {
+                    self.client_closed = true;
+                    out.frame(&AMQPFrame::Method(0, AMQPClass::Connection(connection::AMQPMethod::CloseOk(connection::CloseOk {}))));
+                }
+            }
+            return;
         }
         let frame = match parsed {
             Some(f) => f,
